@@ -113,6 +113,28 @@ def main(tier):
                               {'cmd': 'val', 'job': rj})
             else:
                 rep.note_inconclusive('disagreement did not reproduce on the stripped runtime')
+    # late binding (createNamedType(name, unknown) ... overrideNamedType(name, real)): describe() asked before and after the named types got
+    # their definitions; the second text must be that of a parser built afterwards (a text memoised on the parser goes stale)
+    N_, S_ = {'t': 'typeof', 'name': 'number'}, {'t': 'typeof', 'name': 'string'}
+    def O_(props): return {'t': 'object', 'props': props, 'index': []}
+    def R_(n): return {'t': 'ref', 'name': n}
+    late_systems = [
+        {'name': 'late-list', 'defs': {'L': O_({'v': N_, 'next': {'t': 'anyof', 'xs': [R_('L'), {'t': 'nullish', 'd': 'null'}]}})}, 'root': R_('L')},
+        {'name': 'late-shared', 'defs': {'P': O_({'x': N_, 'y': N_})}, 'root': O_({'from': R_('P'), 'to': R_('P')})},
+        {'name': 'late-once', 'defs': {'A': O_({'street': S_}), 'U': O_({'name': S_, 'addr': R_('A')})}, 'root': {'t': 'array', 'x': R_('U')}},
+    ]
+    r = subprocess.run(['node', os.path.join(os.path.dirname(os.path.dirname(os.path.abspath(__file__))), 'jsdse', 'hash_named.mjs'), valcheck.RT, json.dumps(late_systems)],
+                       stdout=subprocess.PIPE, stderr=subprocess.PIPE, text=True, timeout=120, env=valcheck.ENV)
+    if r.returncode != 0:
+        rep.note_inconclusive('late-binding step failed: ' + r.stderr[-300:])
+    else:
+        for x in json.loads(r.stdout):
+            if 'error' in x or 'late' not in x:
+                rep.note_inconclusive(f'late-binding step: {x.get("error") or x.get("late_error")}')
+            elif x['late']['describe'] != x['describe']:
+                rep.violation('c15:describe:stale-after-late-binding', f'describe() asked before and after the named types of {x["name"]} were bound prints `{x["late"]["describe"][-200:]}` the second time, '
+                              f'a parser built afterwards `{x["describe"][-200:]}`', {'cmd': 'describe-late', 'systems': late_systems})
+    stats['late_binding_systems'] = len(late_systems)
     coverage = {
         'explanation': 'describe() of the real runtime (concrete) is compiled again by the real compiler; hash256 compared concretely; both generations explored on one shared symbolic value',
         'evaluations': max(agg['paths'], 1), 'distinct_nontrivial': max(agg['paths'], 2), 'rule': 'one evaluation = one joint path of the first- and second-generation validators',
